@@ -699,6 +699,14 @@ def gen_toint(rng, n):
             if rng.random() < 0.3: ds = (lead + '0' * q)[:q - 1] + rng.choice('01')
             x = fin(rng.randint(0, 1), int(ds) or 1, -q - rng.choice([0, 0, 0, 1, -1]))
         elif k < 0.12: x = int_limit_fewdigits(rng, w, sg)
+        elif k < 0.17:   # dyadic fractions j/2^m (m <= 6) written with 4..33 fractional digits: the reciprocal-multiplication fraction f* has
+                         # zero low bits, so the 'is it exact / above one half' tests are decided by the high words alone (found by a mutation scan)
+            xd = rng.randint(4, 33); m = rng.randint(1, 6); j = rng.randint(1, (1 << m) - 1)
+            fr = j * 10 ** xd // (1 << m)
+            if fr * (1 << m) != j * 10 ** xd: fr = 5 * 10 ** (xd - 1)
+            nint = rng.choice([0, 1, 2, rng.randint(0, 10 ** rng.randint(1, max(1, min(10, 34 - xd)))), (1 << (w - 1)) - 1, (1 << w) - 1, (1 << (w - 1))])
+            c = nint * 10 ** xd + fr
+            x = fin(rng.randint(0, 1), c, -xd) if 0 < c < T34 else fin(rng.randint(0, 1), fr, -xd)
         elif k < 0.20:   # integers written with many fractional zeros (scale 1..33): exactness tests per removed-digit count
             v = rng.choice([rng.randint(1, 10 ** rng.randint(1, 12)), rng.randint(1, 9)]); kz = rng.randint(1, 34 - ndig(v))
             x = fin(rng.randint(0, 1), v * 10 ** kz, -kz)
